@@ -607,6 +607,132 @@ class _AttrFold(ast.NodeTransformer):
         return node
 
 
+def index_loops_to_iteration(tree):
+    """`for i in range(len(L)): ... L[i] ...` -> `for x in L: ... x ...` and the descending form
+    `for i in range(len(L) - 1, -1, -1)` -> `for x in reversed(L)`, when i is used only to read L[i] and L is a local name that
+    the body mentions in no other way (so its length cannot change under the loop).  `n = len(L)` bound once just for the range
+    is seen through.  Undoes `direct iteration -> index loop`."""
+    count = 0
+    for fn in [n for n in ast.walk(tree) if isinstance(n, (ast.FunctionDef, ast.AsyncFunctionDef))]:
+        lens = {}
+        stores = {}
+        for n in ast.walk(fn):
+            if isinstance(n, ast.Name) and isinstance(n.ctx, ast.Store):
+                stores[n.id] = stores.get(n.id, 0) + 1
+        for st in ast.walk(fn):
+            if isinstance(st, ast.Assign) and len(st.targets) == 1 and isinstance(st.targets[0], ast.Name) and isinstance(st.value, ast.Call) and isinstance(st.value.func, ast.Name) \
+                    and st.value.func.id == "len" and len(st.value.args) == 1 and isinstance(st.value.args[0], ast.Name) and stores.get(st.targets[0].id) == 1:
+                lens[st.targets[0].id] = st.value.args[0].id
+
+        def length_of(n):
+            if isinstance(n, ast.Call) and isinstance(n.func, ast.Name) and n.func.id == "len" and len(n.args) == 1 and isinstance(n.args[0], ast.Name):
+                return n.args[0].id
+            if isinstance(n, ast.Name) and n.id in lens:
+                return lens[n.id]
+            return None
+
+        for lp in [n for n in ast.walk(fn) if isinstance(n, ast.For)]:
+            if not (isinstance(lp.target, ast.Name) and isinstance(lp.iter, ast.Call) and isinstance(lp.iter.func, ast.Name) and lp.iter.func.id == "range" and not lp.orelse):
+                continue
+            a = lp.iter.args
+            L = None
+            rev = False
+            if len(a) == 1:
+                L = length_of(a[0])
+            elif len(a) == 2 and isinstance(a[0], ast.Constant) and a[0].value == 0:
+                L = length_of(a[1])
+            elif len(a) == 3 and isinstance(a[0], ast.BinOp) and isinstance(a[0].op, ast.Sub) and isinstance(a[0].right, ast.Constant) and a[0].right.value == 1 \
+                    and all(isinstance(x, ast.UnaryOp) and isinstance(x.op, ast.USub) and isinstance(x.operand, ast.Constant) and x.operand.value == 1 or (isinstance(x, ast.Constant) and x.value == -1) for x in a[1:]):
+                L = length_of(a[0].left)
+                rev = True
+            if L is None or stores.get(L, 0) > 1:
+                continue
+            i = lp.target.id
+            ok = True
+            uses = []
+            body = ast.Module(body=lp.body, type_ignores=[])
+            parents = {}
+            for n in ast.walk(body):
+                for c in ast.iter_child_nodes(n):
+                    parents[id(c)] = n
+            for n in ast.walk(body):
+                if isinstance(n, ast.Name) and n.id == i:
+                    p_ = parents.get(id(n))
+                    if isinstance(n.ctx, ast.Load) and isinstance(p_, ast.Subscript) and p_.slice is n and isinstance(p_.value, ast.Name) and p_.value.id == L and isinstance(p_.ctx, ast.Load):
+                        uses.append(p_)
+                    else:
+                        ok = False
+                elif isinstance(n, ast.Name) and n.id == L:
+                    p_ = parents.get(id(n))
+                    if not (isinstance(p_, ast.Subscript) and p_.value is n and isinstance(p_.slice, ast.Name) and p_.slice.id == i and isinstance(p_.ctx, ast.Load)):
+                        ok = False
+            if not ok or not uses:
+                continue
+            item = "%s__item" % L
+            for u in uses:
+                par = parents.get(id(u))
+                new = ast.copy_location(ast.Name(id=item, ctx=ast.Load()), u)
+                for field, val in ast.iter_fields(par):
+                    if val is u:
+                        setattr(par, field, new)
+                    elif isinstance(val, list):
+                        for k, x in enumerate(val):
+                            if x is u:
+                                val[k] = new
+            lp.target = ast.copy_location(ast.Name(id=item, ctx=ast.Store()), lp.target)
+            src = ast.Name(id=L, ctx=ast.Load())
+            lp.iter = ast.copy_location(ast.Call(func=ast.Name(id="reversed", ctx=ast.Load()), args=[src], keywords=[]) if rev else src, lp.iter)
+            count += 1
+    ast.fix_missing_locations(tree)
+    return count
+
+
+class _RangeComp(ast.NodeTransformer):
+    """[f(i) for i in range(3)] -> [f(0), f(1), f(2)]  (single generator, no condition, small literal count; the elements are
+    evaluated in the same order).  Undoes `three repeated statements -> comprehension over range`."""
+
+    def __init__(self):
+        self.count = 0
+
+    def visit_ListComp(self, node):
+        self.generic_visit(node)
+        if len(node.generators) != 1:
+            return node
+        g = node.generators[0]
+        if g.ifs or g.is_async or not isinstance(g.target, ast.Name):
+            return node
+        it = g.iter
+        if not (isinstance(it, ast.Call) and isinstance(it.func, ast.Name) and it.func.id == "range" and len(it.args) in (1, 2) and not it.keywords
+                and all(isinstance(a, ast.Constant) and isinstance(a.value, int) and not isinstance(a.value, bool) for a in it.args)):
+            return node
+        lo, hi = (0, it.args[0].value) if len(it.args) == 1 else (it.args[0].value, it.args[1].value)
+        if not (0 < hi - lo <= 8):
+            return node
+        if any(isinstance(n, ast.Name) and n.id == g.target.id and isinstance(n.ctx, ast.Store) for n in ast.walk(node.elt)):
+            return node
+        elts = [_Subst({g.target.id: ast.Constant(value=k)}, {}).visit(copy.deepcopy(node.elt)) for k in range(lo, hi)]
+        self.count += 1
+        return ast.copy_location(ast.List(elts=elts, ctx=ast.Load()), node)
+
+
+class _NotFold(ast.NodeTransformer):
+    """`not a is b` -> `a is not b`, `not a is not b` -> `a is b`, `not a in b` -> `a not in b`, `not a not in b` -> `a in b`
+    (exact equivalences: identity and membership have no user-definable negation)"""
+
+    FLIP = {ast.Is: ast.IsNot, ast.IsNot: ast.Is, ast.In: ast.NotIn, ast.NotIn: ast.In}
+
+    def __init__(self):
+        self.count = 0
+
+    def visit_UnaryOp(self, node):
+        self.generic_visit(node)
+        if isinstance(node.op, ast.Not) and isinstance(node.operand, ast.Compare) and len(node.operand.ops) == 1 and type(node.operand.ops[0]) in self.FLIP:
+            self.count += 1
+            c = node.operand
+            return ast.copy_location(ast.Compare(left=c.left, ops=[self.FLIP[type(c.ops[0])]()], comparators=c.comparators), node)
+        return node
+
+
 def _side_effect_free(expr):
     for n in ast.walk(expr):
         if isinstance(n, (ast.Call, ast.Await, ast.Yield, ast.YieldFrom, ast.NamedExpr, ast.Lambda, ast.ListComp, ast.SetComp, ast.DictComp, ast.GeneratorExp)):
@@ -851,13 +977,19 @@ def normalise(tree):
     n2 = unroll_constant_loops(tree) if inl.inlined else 0
     af = _AttrFold()
     af.visit(tree)
+    nf = _NotFold()
+    nf.visit(tree)
+    idx = index_loops_to_iteration(tree)
+    rc = _RangeComp()
+    rc.visit(tree)
+    ast.fix_missing_locations(tree)
     ast.fix_missing_locations(tree)
     if inl.inlined:
         monotone_lines(tree)
     aliases = propagate_new_aliases(tree, pinned_table())
     comps = append_loops_to_comprehensions(tree)
     temps = inline_new_temporaries(tree, pinned_table())
-    return tree, {"inlined": inl.inlined, "kept": inl.kept, "removed": getattr(inl, "removed", []), "unrolled": n1 + n2, "getattr_folded": af.count, "append_loops": comps, "aliases_propagated": aliases, "temporaries_inlined": temps,
+    return tree, {"inlined": inl.inlined, "kept": inl.kept, "removed": getattr(inl, "removed", []), "unrolled": n1 + n2, "getattr_folded": af.count, "negations_folded": nf.count, "index_loops": idx, "range_comprehensions": rc.count, "append_loops": comps, "aliases_propagated": aliases, "temporaries_inlined": temps,
                   "locals_renamed_back": ["%s: %s -> %s (%.2f)" % r for r in renamed]}
 
 
